@@ -30,6 +30,12 @@ CHECKS['C03'] = (
     'inventory pairs, seen-rule pairs, rule closure, perturbed schema instantiations',
     'Every result of every call is judged against the schema its label names; Unification contracts stay on underneath; held-on-observed.',
     'Trusts vlib/schemas_en.py; unary features only; judged on nb-erased inputs.', '§4 C03')
+CHECKS['C04'] = (
+    'icontract post-conditions on the real ja.apply_binary_rules/apply_unary_rules vs a table-driven schema reference; '
+    'inventory pairs, seen-rule pairs, closure, perturbed schema instantiations, shipped + synthetic unary inputs',
+    'Every result of every call is judged against the schema its symbol names (head right, slash of crossed composition, '
+    'instantiation of triples); unary labels judged against the input shape; held-on-observed.',
+    'Trusts vlib/schemas_ja.py; all S/NP atoms carry triples.', '§4 C04')
 
 NOT_YET = {}
 
